@@ -295,6 +295,14 @@ def run_matrix(p, drv):
         w = worst(Km, Kref, allow)
         if w:
             res['disagreements'].append({'detail': f'harness reference and model differ at ({w[0]},{w[1]}): {w[2]!r} vs {w[3]!r}'})
+        # the chain of tensor operations regenerated from the current `_get_kernel_matrix_impl` (Gen.KernelOps), run at Float
+        if 'Kgen' in ans:
+            Kg = np.array(core.unfl(ans['Kgen']), dtype=np.float64).reshape(n, m)
+            res['dist']['regenerated_pipeline'] = 'compared'
+            w = worst(K, Kg, allow)
+            if w:
+                res['disagreements'].append({'detail': f'entry ({w[0]},{w[1]}): implementation {w[2]!r}, regenerated pipeline (Gen.KernelOps) {w[3]!r}, '
+                                                       f'allowance {w[4]:.3g} [{p["kind"]} via {p["via"]}, L={L}, q={p["q"]}, T={p["tkind"]}, {p["dtype"]}]'})
     # property oracle 1: the documented closed form, evaluated independently in numpy
     w = worst(K, Kref, allow)
     if w:
